@@ -10,6 +10,9 @@ func EvaluateDelete(q sql.DeleteStatementSearched, rm RelationManager) (int, err
 	defer rm.EndTxn()
 
 	table := q.TableName
+	if storage.IsCatalogTable(table) {
+		return 0, storage.ErrCatalogReadOnly
+	}
 	rows, fields, err := rm.Fetch(table)
 	if err != nil {
 		return 0, err
